@@ -8,7 +8,7 @@ ids = [p['id'] for p in props]
 
 NOTE_COMMON = ('Trusted: Coq 8.16.1 kernel incl. vm_compute (no native_compute); no axioms (Print Assumptions re-run on every check); '
                'hand-written Gallina model tied to /repo by extraction (ExtrOcamlBasic only) + differential correspondence on every run; '
-               'generated tables and translated source (tools/gen: data files, python-ast call sites / set sites / raise sites, and the source translators for the evaluators, check_args, tags, moparser, plural / header / message / date / language / charset checks) re-derived from /repo on every run; the translators are trusted. See DESIGN.md section 4 and 10.')
+               'generated tables and translated source (tools/gen: data files, python-ast call sites / set sites / raise sites, and the source translators for the evaluators, check_args, tags, moparser, the format parsers, polib4us, cli, and the plural / header / message / date / language / charset checks) re-derived from /repo on every run; the translators are trusted. See DESIGN.md section 4 and 10.')
 
 CHECKS = {
     'C05': dict(
@@ -78,9 +78,9 @@ CHECKS = {
              'multi-file run is the concatenation of the single-file runs (given that checking one file is a function of that file); and, over the python ast '
              'regenerated on every run, no set/frozenset/key-algebra is consumed in an order-sensitive way outside two reviewed benign sites. Explored, not proved: '
              'hash seeds {0,1,2,3,random}, argument permutations and prefixes, histories, -j {1..16} and repeated runs through the real CLI, each compared with the '
-             'concatenation of single-file seed-0 outputs. Real scheduling and interpreter state are not in the model.',
+             'concatenation of single-file seed-0 outputs. Real scheduling and interpreter state are not in the model. Source tie: check_all (both branches), check_file, check_file_s, parse_jobs and the -l/-j normalisation of main are translated from the working tree on every run and proved equal to the model; the translated check_all writes the concatenation of the per-file outputs for every job count and completion order (C03_source_tie_*, C03_source_check_all_output).',
         design_ref='DESIGN.md 5 / C03',
-        technique='Coq proof about the check_all model + regenerated set-iteration table (vm_compute) + CLI schedule/seed/history exploration',
+        technique='Coq proof about the check_all model + regenerated set-iteration table (vm_compute) + CLI schedule/seed/history exploration + source translation (python ast -> Gallina) proved equal to the model',
         note=NOTE_COMMON + ' The set-iteration detector is syntactic (trusted, not a type checker). D6 fixed by commit a257859.'),
     'C18': dict(
         category='proof',
@@ -167,9 +167,9 @@ CHECKS = {
              'hidden flag (C08); a member of an unpacked .deb (tmpdir/) or .dsc (tmpdir/s/) is printed as <package>/<member>. Not modelled: that every diagnostic is a function of the loaded '
              'catalog, path, options and date; os.walk, subprocesses and temporary-directory cleanup. Those are explored end to end through the real checker: one catalog spelled by two renderers, '
              're-wrapped, octal-escaped, transcoded (ISO-8859-2 and msgcat), MO files by msgfmt in both byte orders / without hash table / other alignment, PO vs its MO, .deb and native .dsc '
-             'packages (rejected members included) built with dpkg-deb / a tarball vs per-member runs, TMPDIR empty afterwards.',
+             'packages (rejected members included) built with dpkg-deb / a tarball vs per-member runs, TMPDIR empty afterwards. Source tie: check_deb (kind dispatch, roots, the os.walk loop, ignore list), check_file, copy_options (a NEW options value) and the cli Checker.tag are translated from the working tree on every run and proved equal to the model (C17_source_tie_*).',
         design_ref='DESIGN.md 5 / C17',
-        technique='Coq proof (corollaries of the C08/C10 loader theorems; path mapping) + metamorphic exploration with independent tools (msgcat, msgfmt, dpkg-deb, dpkg-source)',
+        technique='Coq proof (corollaries of the C08/C10 loader theorems; path mapping) + metamorphic exploration with independent tools (msgcat, msgfmt, dpkg-deb, dpkg-source) + source translation (python ast -> Gallina) proved equal to the model',
         note=NOTE_COMMON + ' The step from the loaded catalog to the diagnostics is covered by the per-check properties (C07, C14-C16, C18-C20), not composed here.'),
     'C10': dict(
         category='proof',
@@ -179,18 +179,18 @@ CHECKS = {
              'normalisation), the line lexer and the 14-state PO state machine - yields exactly the catalog: strings, flags in order with duplicates, obsolete marker, previous-msgid, references '
              'and extracted comments on the right entry, for nplurals <= 10 (D9) and outside dropped #~| annotations (D22) (C10_load_render, C10_open_load_render, C10_load_po_render; the codecs '
              'are oracles whose answers the harness supplies from the live codecs). The loader model never crashes. Tied by correspondence and by the model-free load(render(c)) == c oracle over '
-             '42 ASCII-compatible charsets with an independent renderer, on single files and on multi-file sequences in one process.',
+             '42 ASCII-compatible charsets with an independent renderer, on single files and on multi-file sequences in one process. Source tie: polib_unescape with its callback, the pattern texts of its three regexes, Codecs.open (the line loop, comment normalisation, pending comments), detect_encoding and the pofile_find patch are translated from the working tree on every run and proved equal to the model (C10_source_tie_*).',
         design_ref='DESIGN.md 5 / C10; notes/C10.md',
-        technique='Coq proof (unescape round trip and totality, lexer round trips per line kind and their assembly, state-machine round trip, Codecs.open / detect_encoding composition) + extracted-model correspondence with oracle-answer protocol + render/load oracle',
+        technique='Coq proof (unescape round trip and totality, lexer round trips per line kind and their assembly, state-machine round trip, Codecs.open / detect_encoding composition) + extracted-model correspondence with oracle-answer protocol + render/load oracle + source translation (python ast -> Gallina) proved equal to the model',
         note=NOTE_COMMON + ' polib (third party) is modelled, not verified; bytes.decode is an oracle; separators after keywords are one choice per file in the proved family. Known findings D9, D14, D22, D23, D27; D29 repaired in /repo (5d2c73e): model, specification and theorems are those of the repaired code.'),
     'C12': dict(
         category='proof',
         text='Coq theorems relating two models, the scanner model of strformat.python.FormatString and a model of CPython 3.12 unicode_format_arg_parse/format: if the parser accepts '
              '(in the property\'s domain: no decorated %% conversion) then CPython formats the string with every argument tuple/mapping matching the reported signature; if CPython rejects '
              'the string whatever the arguments, the parser rejects; a formattable string is rejected only for the documented reasons; only own errors. The theorem\'s weight rests on both '
-             'correspondences, which run on every check: parser model vs the real parser, and CPython model vs the live interpreter (s % args).',
+             'correspondences, which run on every check: parser model vs the real parser, and CPython model vs the live interpreter (s % args). Source tie: FormatString.__init__ (all five scanning loops), add_argument and Conversion.__init__ of lib/strformat/python.py are translated from the working tree on every run and proved equal to the model (C12_source_tie_*).',
         design_ref='DESIGN.md 5 / C12; notes/C12.md',
-        technique='Coq proof (per-directive agreement lemma between two scanners) + two extracted-model correspondences + live-interpreter oracle',
+        technique='Coq proof (per-directive agreement lemma between two scanners) + two extracted-model correspondences + live-interpreter oracle + source translation (python ast -> Gallina) proved equal to the model',
         note=NOTE_COMMON + ' The CPython-side model is hand-written from knowledge of unicodeobject.c and validated against the live interpreter, not derived from its source.'),
     'C13': dict(
         category='proof',
@@ -200,9 +200,9 @@ CHECKS = {
              'theorem: an accepted string whose fields are flat (no nested field, no attribute/index, spec outside D24) formats successfully under the CPython model with any arguments matching '
              'the reported argument map and type sets (automatic/manual numbering and index-vs-keyword lookup included), also instantiated on the generated Unicode tables. The flat/guard domain '
              'is recomputed by the extracted model and compared with the live parser on every run; the CPython-side model is compared with string.Formatter().parse and str.format. Time on the real '
-             're engine is MEASURED on doubling families (a property of the engine no Gallina model exhibits); the model scanners have proved linear step bounds.',
+             're engine is MEASURED on doubling families (a property of the engine no Gallina model exhibits); the model scanners have proved linear step bounds. Source tie: both brace parsers (perlbrace FormatString.__init__; pybrace FormatString.__init__, add_argument, Field.__init__ with the type-set computation; the pattern texts and error-class tables) are translated from the working tree on every run and proved equal to the models (C13_source_tie_*).',
         design_ref='DESIGN.md 5 / C13; notes/C13.md',
-        technique='Coq proof (scanner models vs declarative specs / CPython markup + format model) + correspondences (model vs parser, spec vs string.Formatter / str.format, domain op) + measured time growth',
+        technique='Coq proof (scanner models vs declarative specs / CPython markup + format model) + correspondences (model vs parser, spec vs string.Formatter / str.format, domain op) + measured time growth + source translation (python ast -> Gallina) proved equal to the model',
         note=NOTE_COMMON + ' The CPython-side model is hand-written and validated against the live interpreter. Known findings D24 (pinned by tests), D25. D3, D4 fixed (01ae369, 89b000c).'),
     'C01': dict(
         category='other',
